@@ -65,6 +65,42 @@ CHECKS = {
             "All strings <= 6 over 7 classes (and <= 7 over 5) are rendered by the real python templater: valid strings must render to the contract's text without a TMP violation, invalid ones must give a TMP violation and nothing else may escape; all strings <= 4-5 over the parameter alphabet x the 12 placeholder styles must render with each matched parameter replaced, and the produced slices must reproduce the rendering.",
             "The spec's format-string grammar agrees with string.Formatter on all enumerated strings (a disagreement is a machinery failure). Known findings: escaped braces / conversions / greedy spec in the dot rewrite, empty format spec. Notes: notes/C09.md.",
             "DESIGN.md §5 C09"),
+    "C18": (MC, "TLA+ outcome contract + transcription of the CLI/API counters and gates (spec/Outcome.tla), TLC enumerates the scenario space; spec->code replay of every scenario through CLI path, CLI stdin and the python API; completed records validated by spec/OutcomeTrace.tla; FixLoop limit rollback",
+            "Every abstract scenario (TMP fatal / non-fatal, PRS raised / unparsable section) x (unsuppressed, noqa, ignore, warnings) x fixable violation x fix_even_unparsable x fix/format x entry point is built from concrete blocks and run for real; a file with any templating or parsing error must come back byte-identical unless fix_even_unparsable is set, and a loop-limit run must return the original text with its violations unfixable.",
+            "Scope: 1-2 files per scenario, 1 243 scenarios (quick). Trusted: scenario concretiser, in-process CliRunner (+ a subprocess sample). Notes: notes/C18.md.",
+            "DESIGN.md §5 C18"),
+    "C19": (MC, "spec/Outcome.tla: the result is a function of (text, effective config), the entry point is not a parameter; TLC-enumerated scenarios run through path / stdin --stdin-filename / API and compared clause by clause (OutcomeTrace); corpus leg on dialect fixtures",
+            "The same text and configuration (incl. inline directives and nested .sqlfluff) is linted and fixed through the three entry points: violation records, fixed text and exit status must agree; 1 243 scenarios plus a corpus leg.",
+            "API has no exit status. Known findings: stdin fix exit/flags (F23 and relatives), ignore=linting in the API. Notes: notes/C19.md.",
+            "DESIGN.md §5 C19"),
+    "C22": (MC, "spec/Outcome.tla ExitLint / ExitFix contract with a transcription of the CLI counters (TLC reports where they differ); every enumerated scenario run through lint / fix / format x path / stdin and validated by OutcomeTrace",
+            "Exit status of lint, fix and format is compared with the contract (1 exactly for an unsuppressed, non-warning violation that remains, or an unsuppressed TMP/PRS error blocking fixing; warnings never; usage errors 2) over the whole enumerated scenario space.",
+            "Known findings: stdin samples unfixable before the discard (F23), fix_even_unparsable + templater error on stdin, unknown dialect in a config file exits 1. Notes: notes/C22.md.",
+            "DESIGN.md §5 C22"),
+    "C34": (MC, "spec/Outcome.tla skip contract (size > limit => Skipped, never parsed / linted / rewritten, counted, fails only with large_file_skip_fail) + transcription of byte/char limit handling; scenarios around both limits with multi-byte text x serial/parallel x lint/fix",
+            "Files of size limit-1, limit, limit+1 in bytes and in characters (multi-byte text) are run through lint and fix, serial and parallel, with and without large_file_skip_fail; skipped files must produce no later event, be counted, stay byte-identical and affect the exit status only through the flag.",
+            "Known finding: a file over large_file_skip_char_limit is swallowed in render_string (F11). Notes: notes/C34.md.",
+            "DESIGN.md §5 C34"),
+    "C21": (MC, "TLA+ model of rule_reference_map / _expand_rule_refs / get_rulepack with a recursive glob matcher (spec/RuleSelect.tla), TLC exhaustive on a synthetic colliding registry and on constants extracted from the live registry; spec->code replay through the real get_rulepack; lint-mode differential (RuleSelectTrace): rule r under selection S vs alone",
+            "All allow/deny pairs of <= 2 selectors (codes, names, groups, aliases, globs, unknowns) are expanded by the TLA+ contract and by the real code (171k pairs); recorded lint runs show that every reported code is selected and that each rule reports the same violations alone as under the whole selection.",
+            "Glob semantics = fnmatch (case-sensitive). Unique rule names assumed (checked on the live registry each run). Notes: notes/C21.md.",
+            "DESIGN.md §5 C21"),
+    "C33": (MC, "TLA+ transcription of deduplicate_in_source_space + contract (spec/Report.tla), TLC exhaustive; spec->code replay with real error objects; ReportTrace validation of lint runs on loop / variant templates",
+            "All violation lists <= 4 x <= 3 variants with duplicate signatures and out-of-order input are replayed into the real function; recorded reports of templated inputs (loops, several variants, all rules) contain no two violations with the engine's source signature, are sorted by (line, pos) and lose no signature.",
+            "Duplicates on the user-visible key (code, line, pos, description) with different fix edits are counted, not failed (statement does not call them one violation). Notes: notes/C33.md.",
+            "DESIGN.md §5 C33"),
+    "C28": (MC, "TLA+ transcription of to_tuple + structural_simplify and the serialisation contract (spec/TreeRecord.tla), TLC exhaustive over small trees; spec->code replay on real segment trees; TreeRecordTrace validation of API records and CLI json / yaml / human output",
+            "Every tree <= 5 nodes with duplicate-type siblings, empty raws and metas is serialised by the real code and compared with the contract; for fixture files the API record and the CLI parse output in all formats (+- code-only, +- include-meta) list every token once in file order, concatenate to the rendered SQL and nest types as the tree does.",
+            "Known finding: the human format prints comments of an unparsable section out of order. Notes: notes/C28.md.",
+            "DESIGN.md §5 C28"),
+    "C29": (MC, "reference graph of every expanded dialect extracted at check time (harness/vf/dialect_graph.py) and explored by TLC (spec/DialectGraph.tla: reachability from the root, invariant node defined); extraction bound to the code by observed Dialect.ref calls; witnesses generated for dangling references; DialectLexTrace for the any-character lexer clause",
+            "All 28 dialects load; TLC visits every grammar element reachable from each root and reports every reference that resolves to nothing; every Dialect.ref call observed while parsing fixtures is a node of the extracted graph (else machinery failure); each dialect's lexer accepts every character of a sample covering all Unicode categories.",
+            "175 reachable dangling references (121 root causes) exist today and are listed as known findings keyed (defining dialect, reference). Notes: notes/C29.md.",
+            "DESIGN.md §5 C29"),
+    "C16": (EX, "step-wise semantic contract spec/SemContract.tla (rows' = rows unless the rule is documented to change behaviour) validated by SemTrace on recorded fix runs of generated executable SQLite queries; the row multiset of every adopted version is computed by sqlite3",
+            "300 (quick) generated queries over a fixed schema and three data sets are fixed with all rules except ST06 and CV05; the SQL of every adopted fix batch is executed and must return the same multiset of rows; a violation names the rule that introduced it.",
+            "Exploration: the oracle is SQLite, the spec contributes the per-step contract and the exception list. Known findings: ST07 USING->ON with SELECT *, ST04 `ELSE 3END`, RF03 on ORDER BY positions (sqlite), CV12 after ST07. Notes: notes/C16.md.",
+            "DESIGN.md §5 C16"),
     "C20": (MC, "TLA+ contract + transcription of IgnoreMask (spec/Noqa.tla), TLC exhaustive; spec->code replay of every enumerated case; code->spec trace validation of generated files (NoqaTrace)",
             "TLC shows the transcribed masking algorithm refines the noqa contract for every directive list/violation set in scope, every such case is replayed into the real IgnoreMask, and recorded lint runs of generated files (all reference forms, tree and source-fallback masks, disable_noqa) are validated against the same contract.",
             "Scope: 3 lines, <=2 (quick) / <=3 (thorough) directives, <=2 violations, codes {A,B,PRS}. Trusted: object builders, file concretiser, code mapping LT01/CP01/PRS. `used` of enable directives and of several directives hiding the same violation is left unconstrained (ambiguous in the statement).",
